@@ -31,6 +31,8 @@ class ExprMixin:
             return fr.env[name]
         if name in self.st.ghost:
             return self.st.ghost[name]
+        if name == '__out__' and self.in_spec:
+            return SV('tuple', tuple(self.st.out))
         if name in ('True', 'False'):
             return VB(name == 'True')
         # module-level names of the real source
@@ -347,7 +349,8 @@ class ExprMixin:
         if a.k == 'none' or b.k == 'none':
             if a.k == 'opq' or b.k == 'opq':
                 o = a if a.k == 'opq' else b
-                if getattr(self, 'opq_model_table', {}).get(o.x or 'any', {}).get('__truthy__'):
+                m_ = getattr(self, 'opq_model_table', {}).get(o.x or 'any', {})
+                if m_.get('__truthy__') or m_.get('__notnone__'):
                     return z3.BoolVal(False)       # a value of this external kind is an object, never None
                 return self.ufunc('is_none', OPQ, BOOL)(o.t)
             return z3.BoolVal(a.k == b.k)
@@ -489,6 +492,8 @@ class ExprMixin:
 
     def contains(self, container, x):
         c = container
+        if c.k == 'obj' and '__store__' in self.st.heap[c.t].f:
+            c = self.st.heap[c.t].f['__store__']
         if c.k == 'tuple' or c.k == 'list':
             items = c.t if c.k == 'tuple' else self.st.heap[c.t].items
             if not items:
@@ -727,6 +732,8 @@ class ExprMixin:
         raise Unsupported('subscript of const')
 
     def obj_getitem(self, base, idx, node):
+        if base.k == 'obj' and '__store__' in self.st.heap[base.t].f:
+            return self.index_value(self.st.heap[base.t].f['__store__'], idx, node)
         if base.k == 'obj':
             return self.call_method(base, '__getitem__', [idx], {}, node)
         if '__getitem__' in self.opq_models().get(base.x or 'any', {}):
@@ -784,6 +791,8 @@ class ExprMixin:
 
     def iter_concrete(self, v):
         """iterate a value whose length is a program constant on this path"""
+        if v.k == 'obj' and '__store__' in self.st.heap[v.t].f:
+            v = self.st.heap[v.t].f['__store__']
         if v.k == 'tuple':
             return list(v.t)
         if v.k == 'list':
